@@ -151,7 +151,7 @@ func (r c20Replay) opLine() []string {
 }
 
 func runC20(c *Ctx) {
-	c.Res.Rule = "add/remove/contains histories over the tags {a, A, ' a ', b, ''}: exhaustive to length L (quick 5, thorough 6) for TagList, StringList and CIDRList; random to length 300 with multi-argument calls over a wider alphabet (tabs, Kelvin sign, dotted I, mixed case); list contents after every step and every Contains answer compared with an independent reference ordered set (oracle) and with the Lean model (correspondence); CIDRList array form vs comma-joined form for random entry lists. non-trivial = distinct histories / entry lists."
+	c.Res.Rule = "add/remove/contains histories over the tags {a, A, ' a ', b, ''}: exhaustive to length L (quick 5, thorough 6) for TagList, StringList and CIDRList; random to length 300 with multi-argument calls over a wider alphabet (tabs, Kelvin sign, dotted I, mixed case); list contents after every step and every Contains answer compared with an independent reference ordered set (oracle) and with the Lean model (correspondence); CIDRList array form vs comma-joined form for random entry lists, the comma-joined string also written with the other escapes JSON allows (\\/, \\u002f, \\uXXXX). non-trivial = distinct histories / entry lists."
 	tags := []string{"a", "A", " a ", "b", ""}
 	var alphabet []listOp
 	for _, t := range tags {
@@ -229,6 +229,31 @@ func runC20(c *Ctx) {
 			c.Violate("cidr-dual-form", fmt.Sprintf("entries %q: array form gives %q (err %v), string form gives %q (err %v)", es, a, e1, b, e2), map[string]interface{}{"entries": es})
 		}
 		c.Count("cidr-dual")
+		// the same JSON string written with other legal escapes (`\/`, `\u002f`, `\u0031` ...: what non-Go encoders
+		// emit) is the same string, so it must decode to the same entries
+		esc := func(js string) string {
+			var sb strings.Builder
+			for _, r := range js[1 : len(js)-1] {
+				switch {
+				case r == '/' && c.R.Chance(70):
+					sb.WriteString([]string{"\\/", "\\u002f", "\\u002F"}[c.R.Intn(3)])
+				case r < 128 && r != '\\' && r != '"' && c.R.Chance(15):
+					sb.WriteString(fmt.Sprintf("\\u%04x", r))
+				default:
+					sb.WriteRune(r)
+				}
+			}
+			return `"` + sb.String() + `"`
+		}
+		if k > 0 {
+			alt := esc(string(str))
+			var b2 jwt.CIDRList
+			e4 := json.Unmarshal([]byte(alt), &b2)
+			if e4 != nil || showStrs(b2) != showStrs(es) {
+				c.Violate("cidr-dual-form", fmt.Sprintf("entries %q: the comma-joined form written as %s decodes to %q (err %v)", es, alt, b2, e4), map[string]interface{}{"entries": es, "json": alt})
+			}
+			c.Count("cidr-escaped-string-form")
+		}
 		// string form with upper case / blanks / duplicates normalises to lower-case trimmed unique entries
 		noisy := ""
 		var want []string
